@@ -149,6 +149,14 @@ func (writer *SSTableStreamWriter) WriteNext(key []byte, value []byte) error {
 
 func (writer *SSTableStreamWriter) Close() (err error) {
 	err = errors.Join(writer.indexWriter.Close(), writer.dataWriter.Close())
+	if err != nil {
+		// the buffered tail of the index or data file could not be written: the metadata, which marks a table as
+		// completely written, must stay empty then
+		if writer.metaDataFile != nil {
+			err = errors.Join(err, writer.metaDataFile.Close())
+		}
+		return err
+	}
 
 	if writer.opts.enableBloomFilter && writer.bloomFilter != nil {
 		_, bErr := writer.bloomFilter.WriteFile(filepath.Join(writer.opts.basePath, BloomFileName))
